@@ -27,6 +27,7 @@ use crate::schema::types::{ColumnPath, SchemaType};
 use crate::thrift::TSerializable;
 
 //@fn column/page_reader.rs PageReader::{prepare_next, read_header, prepare_data_page, prepare_data_page_v2, prepare_dictionary, init_page_decoder}
+//@fn compression.rs Codec::decompress as driven by the page reader (SNAPPY, GZIP, LZ4_RAW, ZSTD)
 
 fn header_bytes(h: &format::PageHeader) -> Vec<u8> {
     let mut out = Vec::new();
@@ -174,4 +175,64 @@ fn c19_page_reader__damaged_chunks_ok_or_err_never_panic__nat() {
     }
     assert!(cases > 500);
 }
+// C10 U8 (bounded stand-in, native; NOT a proof): a column chunk read through the real column reader returns the same
+// values whatever the compression codec.  PLAIN INT32 v1 data pages (REQUIRED column) are built for every pair (a, b),
+// 0 <= a <= 30 distinct-looking values followed by 0 <= b <= 30 repeats of one value (so pages range from incompressible
+// to highly compressible, and pages whose compressed size equals, exceeds or is below the uncompressed size all occur),
+// compressed with the crate's own codecs (SNAPPY, GZIP, LZ4_RAW, ZSTD) and laid out as a two-page chunk; the reader must
+// return exactly the encoded values for every page.
+use crate::compression::{CodecOptions, create_codec};
+
+#[test]
+fn c10_compressed_pages__same_values_for_every_codec__nat() {
+    let codecs = [Compression::SNAPPY, Compression::GZIP(Default::default()), Compression::LZ4_RAW, Compression::ZSTD(Default::default())];
+    let mut cases = 0usize;
+    let mut equal_size_pages = 0usize;
+    for codec_type in codecs {
+        let mut codec = create_codec(codec_type, &CodecOptions::default()).unwrap().unwrap();
+        for a in 0..=30usize {
+            for b in 0..=30usize {
+                if a + b == 0 {
+                    continue;
+                }
+                let mut vals: Vec<i32> = (0..a as i32).map(|i| i.wrapping_mul(0x9E37_79B1u32 as i32) ^ (i << 7)).collect();
+                vals.extend(std::iter::repeat(77).take(b));
+                // two pages: the values, then the values reversed
+                let mut chunk = Vec::new();
+                let mut expected: Vec<i32> = Vec::new();
+                for page_vals in [vals.clone(), vals.iter().rev().copied().collect::<Vec<_>>()] {
+                    let raw: Vec<u8> = page_vals.iter().flat_map(|v| v.to_le_bytes()).collect();
+                    let mut compressed = Vec::new();
+                    codec.compress(&raw, &mut compressed).unwrap();
+                    if compressed.len() == raw.len() {
+                        equal_size_pages += 1;
+                    }
+                    let mut h = v1_header(page_vals.len() as i32, raw.len() as i32, format::Encoding::PLAIN);
+                    h.compressed_page_size = compressed.len() as i32;
+                    chunk.extend(header_bytes(&h));
+                    chunk.extend(compressed);
+                    expected.extend(page_vals);
+                }
+                let mut reader = ValueColumnReader::<PlainInt32ValueReader, _>::try_new(&DefaultBufferManager, DataType::int32(), descr(0), NopRowGroupPruner::default()).unwrap();
+                reader.prepare_for_chunk(chunk.len(), codec_type).unwrap();
+                reader.chunk_buf_mut().copy_from_slice(&chunk);
+                let n = expected.len();
+                let mut out = Array::new(&DefaultBufferManager, DataType::int32(), n).unwrap();
+                let res = reader.read(&mut out, n);
+                assert!(res.is_ok(), "{codec_type:?}: a valid chunk of two pages ({a} distinct + {b} repeated values each) is rejected: {}", res.err().map(|e| e.to_string().lines().next().unwrap_or("").to_string()).unwrap_or_default());
+                for r in 0..n {
+                    let got = match out.get_value(r).unwrap() {
+                        BorrowedScalarValue::Int32(v) => Some(v),
+                        _ => None,
+                    };
+                    assert!(got == Some(expected[r]), "{codec_type:?}: row {r} of a chunk of two pages ({a} distinct + {b} repeated values each) is {got:?}, the file encodes {}", expected[r]);
+                }
+                cases += 1;
+            }
+        }
+    }
+    assert!(cases == 4 * (31 * 31 - 1));
+    assert!(equal_size_pages > 0, "the family contains no page whose compressed size equals its uncompressed size");
+}
+
 include!("/verif/build/kani-gen/pq_page.playback.rs");
